@@ -7,12 +7,13 @@ REPO = os.environ.get("VERIF_REPO", "/repo")
 BACKENDS = ["TBB", "OpenMP", "Internal", "Debug"]
 
 
-def build(target, backend="TBB", san="", guard=True, jobs=16, extra_defs=None):
+def build(target, backend="TBB", san="", guard=True, jobs=16, extra_defs=None, driver_dir=None):
     """Returns the path of the built executable `target`."""
     tag = "%s-%s-%s" % (backend, (san or "plain").replace(",", "+"), "g" if guard else "n")
     if extra_defs:
         tag += "-" + "-".join(sorted(extra_defs)).replace("=", "_")
-    bdir = os.path.join(WORK, "build", tag)
+    drv = target.replace("drv_", "", 1) if driver_dir is None else driver_dir
+    bdir = os.path.join(WORK, "build", tag, drv)
     os.makedirs(bdir, exist_ok=True)
     lock = open(os.path.join(bdir, ".lock"), "w")
     fcntl.flock(lock, fcntl.LOCK_EX)
@@ -20,10 +21,9 @@ def build(target, backend="TBB", san="", guard=True, jobs=16, extra_defs=None):
         cfg = ["cmake", "-G", "Ninja", "-S", os.path.join(VERIF, "harness"), "-B", bdir,
                "-DVERIF_REPO=" + REPO, "-DRKCOMMON_TASKING_SYSTEM=" + backend,
                "-DVERIF_SANITIZE=" + san, "-DVERIF_GUARD=" + ("ON" if guard else "OFF"),
-               "-DCMAKE_BUILD_TYPE=RelWithDebInfo"]
+               "-DCMAKE_BUILD_TYPE=RelWithDebInfo", "-DVERIF_DRIVER=" + drv]
         for d in (extra_defs or []):
             cfg.append("-D" + d)
-        # always re-run cmake: a new driver directory must be picked up by the glob
         p = subprocess.run(cfg, stdout=subprocess.PIPE, stderr=subprocess.STDOUT)
         if p.returncode != 0:
             raise InfraError("cmake configure failed (%s):\n%s" % (tag, p.stdout.decode()[-3000:]))
@@ -34,7 +34,7 @@ def build(target, backend="TBB", san="", guard=True, jobs=16, extra_defs=None):
     finally:
         fcntl.flock(lock, fcntl.LOCK_UN)
         lock.close()
-    exe = os.path.join(bdir, "drivers", target.replace("drv_", "", 1), target)
+    exe = os.path.join(bdir, "drivers", drv, target)
     if not os.path.exists(exe):
         # search
         for root, _, files in os.walk(bdir):
